@@ -192,7 +192,15 @@ func (p *Prelude) buildQuery(o *Obligation, wantModel bool, sizeCap int) string 
 	pr := &printer{mode: mode, lits: map[string]string{}}
 	var body strings.Builder
 
-	terms := append([]*Term(nil), o.Hyps...)
+	hyps := o.Hyps
+	if os.Getenv("GOVC_NOFLATTEN") == "" {
+		fl := &flattener{p: p, mode: mode}
+		hyps = nil
+		for _, h := range o.Hyps {
+			hyps = append(hyps, fl.flattenHyp(h)...)
+		}
+	}
+	terms := append([]*Term(nil), hyps...)
 	goal := o.Goal
 	terms = append(terms, goal)
 
@@ -459,7 +467,7 @@ func (p *Prelude) buildQuery(o *Obligation, wantModel bool, sizeCap int) string 
 		pr.print(&body, a.Term)
 		fmt.Fprintf(&body, " :named ax_%s))\n", mangle(a.Name))
 	}
-	for _, h := range o.Hyps {
+	for _, h := range hyps {
 		body.WriteString("(assert ")
 		pr.print(&body, h)
 		body.WriteString(")\n")
